@@ -25,16 +25,16 @@ theorem behaviour_codes :
       ("ERROR_UNLESS_DEFAULT".toList, bUNLESS), ("ERROR".toList, bERROR)] ∧
     [bCOPY, bIGNORE, bUNLESS, bERROR].Nodup := by decide
 
+/-- the decision table. A key-only property (`v = none`) is compared like the empty string: `(value or "").strip()` -/
 theorem should_copy_spec (k : Str) (v : Option Str) (invalid : List (Nat × List Str)) (beh : List (Nat × Nat)) :
     (invalid.find? (fun e => e.2.contains k) = none → shouldCopy k v invalid beh = .ok true) ∧
     (∀ e, invalid.find? (fun e => e.2.contains k) = some e →
       (behaviourOf beh e.1 = bCOPY → shouldCopy k v invalid beh = .ok true) ∧
       (behaviourOf beh e.1 = bIGNORE → shouldCopy k v invalid beh = .ok false) ∧
-      (behaviourOf beh e.1 = bUNLESS → ∀ s, v = some s → strip s = defaultProperty k →
+      (behaviourOf beh e.1 = bUNLESS → strip (v.getD []) = defaultProperty k →
         shouldCopy k v invalid beh = .ok false) ∧
-      (behaviourOf beh e.1 = bUNLESS → ∀ s, v = some s → strip s ≠ defaultProperty k →
+      (behaviourOf beh e.1 = bUNLESS → strip (v.getD []) ≠ defaultProperty k →
         shouldCopy k v invalid beh = .error (.invalidProperty k)) ∧
-      (behaviourOf beh e.1 = bUNLESS → v = none → shouldCopy k v invalid beh = .error .attributeError) ∧
       (behaviourOf beh e.1 = bERROR → shouldCopy k v invalid beh = .error (.invalidProperty k)) ∧
       (behaviourOf beh e.1 ∉ [bCOPY, bIGNORE, bUNLESS] → shouldCopy k v invalid beh = .error (.invalidProperty k))) := by
   obtain ⟨c1, c2, c3, c4⟩ := beh_codes
@@ -42,15 +42,11 @@ theorem should_copy_spec (k : Str) (v : Option Str) (invalid : List (Nat × List
   have hl : listedIn invalid k = some e := he
   rw [shouldCopy_eq, hl]
   simp only []
-  refine ⟨fun hb => ?_, fun hb => ?_, fun hb s hv hs => ?_, fun hb s hv hs => ?_, fun hb hv => ?_, fun hb => ?_,
-    fun hb => ?_⟩
+  refine ⟨fun hb => ?_, fun hb => ?_, fun hb hs => ?_, fun hb hs => ?_, fun hb => ?_, fun hb => ?_⟩
   · rw [if_pos hb]
   · rw [if_neg (by rw [hb, c1, c2]; decide), if_pos hb]
-  · rw [if_neg (by rw [hb, c1, c3]; decide), if_neg (by rw [hb, c2, c3]; decide), if_pos hb, hv]
-    simp only [hs, if_true]
-  · rw [if_neg (by rw [hb, c1, c3]; decide), if_neg (by rw [hb, c2, c3]; decide), if_pos hb, hv]
-    simp only [hs, if_false]
-  · rw [if_neg (by rw [hb, c1, c3]; decide), if_neg (by rw [hb, c2, c3]; decide), if_pos hb, hv]
+  · rw [if_neg (by rw [hb, c1, c3]; decide), if_neg (by rw [hb, c2, c3]; decide), if_pos hb, if_pos hs]
+  · rw [if_neg (by rw [hb, c1, c3]; decide), if_neg (by rw [hb, c2, c3]; decide), if_pos hb, if_neg hs]
   · rw [if_neg (by rw [hb, c1, c4]; decide), if_neg (by rw [hb, c2, c4]; decide),
       if_neg (by rw [hb, c3, c4]; decide)]
   · simp only [List.mem_cons, List.not_mem_nil, or_false, not_or] at hb
@@ -73,6 +69,10 @@ example : shouldCopy "COMBOS".toList (some " 0.000=1 ".toList) T.invalidSMSimfil
 example : shouldCopy "COMBOS".toList (some "0.000=2".toList) T.invalidSMSimfile [] =
     .error (.invalidProperty "COMBOS".toList) := by decide
 example : shouldCopy "COMBOS".toList (some "0.000=2".toList) T.invalidSMSimfile [(4, 1)] = .ok true := by decide
+/-- key-only properties under ERROR_UNLESS_DEFAULT: FAKES (default "") passes, COMBOS (default "0.000=1") is named -/
+example : shouldCopy "FAKES".toList none T.invalidSMSimfile [] = .ok false := by decide
+example : shouldCopy "COMBOS".toList none T.invalidSMSimfile [] = .error (.invalidProperty "COMBOS".toList) := by
+  decide
 
 /-! ### 13. `_copy_properties` -/
 
@@ -92,14 +92,13 @@ theorem copy_ok (sm : Bool) (source output : Dict) (invalid : List (Nat × List 
   copyProperties_ok sm source output invalid beh h1 h2
 
 /-- the FIRST item that `shouldCopy` rejects decides the error (the items before it neither rejected nor refused
-by the SM-chart key guard); the error is `invalidProperty k`, or an AttributeError for a valueless property -/
+by the SM-chart key guard); the error is `invalidProperty k` -/
 theorem copy_first_error (sm : Bool) (pre post output : Dict) (k : Str) (v : Option Str)
     (invalid : List (Nat × List Str)) (beh : List (Nat × Nat)) (e : CErr)
     (h1 : ∀ x ∈ pre, ∃ b, shouldCopy x.1 x.2 invalid beh = .ok b)
     (h2 : sm = true → ∀ x ∈ pre, accepted invalid beh x = true → x.1 ∈ T.smChartProperties)
     (h3 : shouldCopy k v invalid beh = .error e) :
-    copyProperties sm (pre ++ (k, v) :: post) output invalid beh = .error e ∧
-      (e = .invalidProperty k ∨ (v = none ∧ e = .attributeError)) := by
+    copyProperties sm (pre ++ (k, v) :: post) output invalid beh = .error e ∧ e = .invalidProperty k := by
   refine ⟨copyProperties_first_error sm pre post output (k, v) invalid beh e h1 h2 ?_, shouldCopy_error k v invalid beh e h3⟩
   unfold copyStep; simp only [h3]
 
@@ -143,30 +142,19 @@ example : convert ⟨true, [("WARPS".toList, some "1=2".toList)], []⟩ false no
 
 /-! ### 15. no other failure on the claimed domain -/
 
-/-- the claimed domain: an SSC source; every property listed as invalid for SM simfiles has a value; every chart
-key is one of the six SM fields (and not listed) or is listed in `T.invalidSMChart` and has a value; no chart
-property kind is mapped to COPY_ANYWAY -/
+/-- the claimed domain: an SSC source; every chart key is one of the six SM fields (and not listed) or is listed in
+`T.invalidSMChart`; no chart property kind is mapped to COPY_ANYWAY. (Key-only properties are no longer excluded:
+they are compared like the empty string. `C17More.outcomes` drops the domain altogether.) -/
 structure DomSSC (src : AnySimfile) (beh : List (Nat × Nat)) : Prop where
   ssc : src.isSSC = true
-  propVals : ∀ kv ∈ src.props, Listed T.invalidSMSimfile kv.1 → kv.2 ≠ none
   chartKeys : ∀ c ∈ src.charts, ∀ kv ∈ c.1,
-    (kv.1 ∈ T.smChartProperties ∧ ¬ Listed T.invalidSMChart kv.1) ∨ (Listed T.invalidSMChart kv.1 ∧ kv.2 ≠ none)
+    (kv.1 ∈ T.smChartProperties ∧ ¬ Listed T.invalidSMChart kv.1) ∨ Listed T.invalidSMChart kv.1
   noCopy : ∀ e ∈ T.invalidSMChart, behaviourOf beh e.1 ≠ bCOPY
 
 theorem total (src : AnySimfile) (st : Option AnySimfile) (ct : Option (Dict × Option (List Str)))
     (beh : List (Nat × Nat)) (h : DomSSC src beh) :
     (∃ out, convert src false st ct beh = .ok out) ∨ convert src false st ct beh = .error .notImplemented ∨
       ∃ k, convert src false st ct beh = .error (.invalidProperty k) := by
-  -- a rejected item with a value gives `invalidProperty`
-  have rej : ∀ (invalid : List (Nat × List Str)) (kv : Str × Option Str) (e : CErr),
-      (Listed invalid kv.1 → kv.2 ≠ none) → shouldCopy kv.1 kv.2 invalid beh = .error e →
-      e = .invalidProperty kv.1 := by
-    intro invalid kv e hv he
-    rcases shouldCopy_error _ _ _ _ _ he with h1 | ⟨h1, _⟩
-    · exact h1
-    · have hl : listedIn invalid kv.1 ≠ none := by
-        intro hn; rw [shouldCopy_not_listed _ _ _ _ hn] at he; cases he
-      exact absurd h1 (hv ((listedIn_ne_none _ _).mp hl))
   rw [convert_eq]
   rcases convertWarps_ssc_cases src h.ssc with hw | hw
   · rw [hw]
@@ -174,7 +162,7 @@ theorem total (src : AnySimfile) (st : Option AnySimfile) (ct : Option (Dict × 
     cases hp : copyProperties false src.props (startOf false st).props (invSimOf false) beh with
     | error e =>
       obtain ⟨kv, hkv, hh | ⟨_, hh, _⟩⟩ := copyProperties_error _ _ _ _ _ _ hp
-      · have := rej _ kv e (h.propVals kv hkv) hh
+      · have := shouldCopy_error _ _ _ _ _ hh
         subst this
         exact Or.inr (Or.inr ⟨kv.1, rfl⟩)
       · cases hh
@@ -190,16 +178,11 @@ theorem total (src : AnySimfile) (st : Option AnySimfile) (ct : Option (Dict × 
         | error e' =>
           rw [hcp] at hce; cases hce
           obtain ⟨kv, hkv, hh | ⟨hacc, _, hnot, _⟩⟩ := copyProperties_error _ _ _ _ _ _ hcp
-          · have hv : Listed T.invalidSMChart kv.1 → kv.2 ≠ none := by
-              intro hl
-              rcases h.chartKeys c hcm kv hkv with ⟨_, hn⟩ | ⟨_, hv⟩
-              · exact absurd hl hn
-              · exact hv
-            have := rej _ kv e hv hh
+          · have := shouldCopy_error _ _ _ _ _ hh
             subst this
             exact Or.inr (Or.inr ⟨kv.1, rfl⟩)
           · exfalso
-            rcases h.chartKeys c hcm kv hkv with ⟨hin, _⟩ | ⟨hl, _⟩
+            rcases h.chartKeys c hcm kv hkv with ⟨hin, _⟩ | hl
             · exact hnot hin
             · have hl' := (listedIn_ne_none _ _).mpr hl
               cases hle : listedIn T.invalidSMChart kv.1 with
@@ -209,10 +192,9 @@ theorem total (src : AnySimfile) (st : Option AnySimfile) (ct : Option (Dict × 
                   (h.noCopy en (listedIn_some _ _ _ hle).1) hacc
   · rw [hw]; exact Or.inr (Or.inl rfl)
 
-example : DomSSC ⟨true, [("TITLE".toList, some "x".toList), ("COMBOS".toList, some "0=2".toList)],
-    [([("STEPSTYPE".toList, some "dance-single".toList), ("BPMS".toList, some "".toList)], none)]⟩ [] where
+example : DomSSC ⟨true, [("TITLE".toList, some "x".toList), ("COMBOS".toList, some "0=2".toList), ("FAKES".toList, none)],
+    [([("STEPSTYPE".toList, some "dance-single".toList), ("BPMS".toList, none)], none)]⟩ [] where
   ssc := rfl
-  propVals := by decide
   chartKeys := by decide
   noCopy := by decide
 
